@@ -62,7 +62,12 @@ class Net:
         data = payload(m['size'], m.get('pat', 0), seed + m['src'])
         pf, ps = self.pfps(m)
         before = len(self.bus.log)
-        r = ca.send_pgn(m.get('dp', 0), pf, ps, m.get('prio', 6), list(data))
+        if 'tl' in m or 'ff' in m:
+            r = ca.send_pgn(m.get('dp', 0), pf, ps, m.get('prio', 6), list(data), time_limit=m.get('tl', 0),
+                            frame_format=m.get('ff', 3))
+        else:
+            r = ca.send_pgn(m.get('dp', 0), pf, ps, m.get('prio', 6), list(data))
+        m = dict(m, t_submit=self.w.now)
         self.sent.append((m, r, before, len(self.bus.log), data))
         return r
 
@@ -79,8 +84,8 @@ class Net:
         """multiset {listener tag: [(pgn, sa, payload)]} from the accepted messages"""
         exp = {tag: [] for (tag, _i, _a) in self.listeners}
         for (m, r, _b, _a, data) in self.sent:
-            if r is False:
-                continue
+            if r is False or m.get('ff', 3) != 3:
+                continue                       # refused, or base-format frame (the stack does not receive FBFF)
             si, _ca = self.owner[m['src']]
             pf, ps = self.pfps(m)
             dp = m.get('dp', 0)
